@@ -4,7 +4,7 @@ Whole-history property decided by an inductive invariant over ARBITRARY fragment
 delivery pattern is enumerated.  Ghost: `owner` is the sent message the cache is a prefix of (its
 first `nxt` fragments), `m` is the sent message the incoming frame is fragment `k` of -- any
 message, any k, so every loss / duplication / reordering / interleaving is covered by one step.
-A-ID: two distinct in-flight messages to this node differ in (from_node, frame_id)."""
+A-ID: two distinct in-flight messages seen by this node differ in (from_node, frame_id, to_node)."""
 from pyvc.cdef import Contract
 from pyvc.schema import Int, Bool, Const, Bytes, ByteArray, Obj, OneOf, ListOf, Share
 from pyvc.specrt import implies, ite, same_object
@@ -70,8 +70,8 @@ def same_msg(a, b):
 
 
 def a_id(a, b):
-    """A-ID: (from_node, frame_id) identifies an in-flight message to this node"""
-    return implies(a.F == b.F and a.ID == b.ID, same_msg(a, b))
+    """A-ID: (from_node, frame_id, to_node) identifies an in-flight message seen by this node"""
+    return implies(a.F == b.F and a.ID == b.ID and a.T == b.T, same_msg(a, b))
 
 
 def complete(m):
@@ -98,9 +98,16 @@ def setup_step_empty(self, frame, m, k):
 
 
 def req_step_owner(self, frame, owner, nxt, m, k):
-    return (q_wf(self) and nodup(self) and msg_ok(owner) and msg_ok(m) and owner.T == m.T
+    return (q_wf(self) and nodup(self) and msg_ok(owner) and msg_ok(m)
             and cache_holds(self, owner, nxt) and 0 <= k and k <= m.n - 1 and is_frag(frame, m, k)
-            and (same_object(owner, m) or not (owner.F == m.F and owner.ID == m.ID)))
+            and (same_object(owner, m) or not same_id(owner, m)))
+
+
+def same_id(a, b):
+    """A-ID: (from_node, frame_id, to_node) identifies an in-flight message seen by this node -- the
+    destination is part of the identity: a sender that re-uses one header for a unicast to this
+    node and a multicast to its level puts two messages with equal origin and id on the air"""
+    return a.F == b.F and a.ID == b.ID and a.T == b.T
 
 
 def ens_step_owner(self, old_self, result, exc, owner, nxt, m, k):
@@ -108,7 +115,7 @@ def ens_step_owner(self, old_self, result, exc, owner, nxt, m, k):
         return False
     q0 = qview(old_self)
     q1 = qview(self)
-    same = owner.F == m.F and owner.ID == m.ID
+    same = same_id(owner, m)
     cap = self.max_queue_size == old_self.max_queue_size
     if k == 0:
         # a FIRST fragment (re)starts reassembly with m
@@ -133,7 +140,7 @@ def ens_step_owner(self, old_self, result, exc, owner, nxt, m, k):
 def when_last_out_of_sequence(self, frame, owner, nxt, m, k):
     """known finding D4(a): the LAST fragment of the cached message arriving while middle
     fragments are still missing"""
-    return owner.F == m.F and owner.ID == m.ID and k == m.n - 1 and k != nxt and k != 0
+    return same_id(owner, m) and k == m.n - 1 and k != nxt and k != 0
 
 
 def req_no_overtaking_last(self, frame, owner, nxt, m, k):
